@@ -1,6 +1,7 @@
 package checks
 
 import (
+	"strings"
 	"encoding/json"
 	"fmt"
 	"sync/atomic"
@@ -55,11 +56,17 @@ func init() {
 			quick, thorough explore.Bounds
 		}
 		runs := []run{{"booktiny", b(3, 2, 2), b(4, 2, 3)}, {"book", b(2, 2, 2), b(3, 2, 3)}, {"pay", b(1, 1, 2), b(3, 2, 3)}, {"pool", b(1, 1, 2), b(2, 2, 2)}, {"stake", b(1, 1, 2), b(2, 2, 2)}, {"coin", b(1, 1, 2), b(2, 2, 2)},
-			{"stakepending", b(0, 0, 3), b(1, 1, 3)}, {"valbyz", b(0, 0, 2), b(0, 0, 3)}}
+			{"stakepending", b(0, 0, 3), b(1, 1, 3)}, {"valbyz", b(0, 0, 2), b(0, 0, 3)},
+			// block times only (5 s and 8 s blocks, no transactions): the gas limit of a block follows the
+			// recorded times of the previous blocks, which a restarted node has to read back
+			{"pay+times", b(0, 0, 4), b(0, 0, 6)},
+			// blocks that re-price the block reward (header times around noon)
+			{"mint+times", b(0, 0, 2), b(1, 1, 3)}}
 		var twinRuns, twinHist int64
 		var wr []WorldRun
 		for _, r := range runs {
-			wr = append(wr, WorldRun{World: r.world, Quick: r.quick, Thorough: r.thorough, OneEnv: r.world != "valbyz" && (c.Quick() || r.world != "pay"), MenuFilter: noReplay,
+			allEnvs := r.world == "valbyz" || strings.HasSuffix(r.world, "+times") || (!c.Quick() && r.world == "pay")
+			wr = append(wr, WorldRun{World: strings.TrimSuffix(r.world, "+times"), Quick: r.quick, Thorough: r.thorough, OneEnv: !allEnvs, MenuFilter: noReplay,
 				NoDedupe: !c.Quick(),
 				OnTransition: func(t *explore.Transition, newState bool) []explore.Violation {
 					if t.Cur.Fault != nil || (c.Quick() && !newState) {
